@@ -95,6 +95,7 @@ def run(ctx) -> None:
     ctx.rule("R6", "prerequisite: 'the new version is rejected' - the gate rejects every version that is not strictly greater / does not match, before anything is written (C01/R1-R3)")
     from sa.report import run_prerequisite
     run_prerequisite(ctx, "C01", ("R1", "R2", "R3"), "R6")
+    run_prerequisite(ctx, "C09", ("R5",), "R6")       # ... including the rejection of a version that already exists as a tag
 
     from checks.c03 import all_patterns_found_rule
     for eng in ENGINES:
